@@ -41,8 +41,8 @@ class Run(PropRunStream):
     oracles = ("C02",)
     quick_cases = 300
     quick_seconds = 50
-    corpus = [witness("N1 ")] + W2.CONTROLS
-    p_interrupt = 0.1
+    corpus = [witness("N1 "), witness("D11 ")] + W2.CONTROLS
+    p_interrupt = 0.2
 
 
 from props._cli import CliStream, CLI_TRUSTED, CLI_RULE
